@@ -44,6 +44,10 @@ def filled(shape, rot, kind="i"):
     if kind == "mag":
         mags = [3e-15, 1e-15, 2e-15, 0.0, 1.0 + 1e-13, 1.0, -1e300, 1e300, 5e-324, -3e-15, 1.0 - 1e-13]
         return numpy.array([mags[(rot + i * (2 if rot == 2 else 1)) % len(mags)] for i in range(n)]).reshape(shape)
+    if kind == "nf":
+        # no nan among the inputs: numpoly's extremes follow its polynomial order, numpy's propagate nan (no order on nan, cf. C07)
+        nf = [float("inf"), 2.0, 0.0, -float("inf"), 1e200, -1.5, 0.0, 1.0, float("inf"), 0.0, -1e200]
+        return numpy.array([nf[(rot * 2 + i * (3 if rot == 2 else 1)) % len(nf)] for i in range(n)]).reshape(shape)
     if kind == "u1":
         return (numpy.abs(a) * 50).astype("u1")          # 0..250: sums and differences leave uint8
     if kind == "i1":
@@ -134,7 +138,7 @@ def judge(R, fname, label, f_impl, f_ref, tags, strict_kind=False, sub=None):
     if ref[0] == "exc":
         R.stat("numpy_rejects")
         return
-    if nonfinite(ref[1]):
+    if nonfinite(ref[1]) and "kind=nf" not in tags:
         R.stat("nonfinite_reference")   # division by zero etc.: nan != nan, nothing exact to demand
         return
     got = C08.outcome(f_impl)
@@ -172,6 +176,11 @@ def cases(tier, seed):
         for kind in ("i", "f"):
             out.append({"k": "reductions", "s": list(shape), "rot": 1, "kind": kind})
             out.append({"k": "elementwise", "s": list(shape), "rot": 1, "kind": kind})
+    for shape in [(2,), (3,), (4,), (2, 3), (2, 2, 3)]:
+        for rot in (0, 1, 2):
+            # infinities and nan among the constants: what numpy returns for them is what has to come back (nan taken equal to nan)
+            out.append({"k": "reductions", "s": list(shape), "rot": rot, "kind": "nf"})
+            out.append({"k": "elementwise", "s": list(shape), "rot": rot, "kind": "nf"})
     for shape in SHAPES:
         for rot in (0, 1, 2):
             for kind in ("i", "f", "mag") + (("u1", "i1", "f4", "?") if rot == 0 or shape in ((3,), (2, 3)) else ()):
@@ -283,7 +292,7 @@ def run_case(case, R):
                 for pos in ((0.4, 0.0), (0.0, 1.5), (0.25,)):
                     judge(R, fname, f"(a,b,*{pos}) positional a={a.tolist()} b={b.tolist()}", lambda: getattr(numpoly, fname)(p, q, *pos), lambda: npf(a, b, *pos),
                           tags + ["positional"], strict_kind=True)
-            e = (numpy.abs(b) % 3).astype(int)
+            e = (numpy.abs(b) % 3).astype(int) if kind != "nf" else (numpy.arange(b.size).reshape(b.shape) + rot) % 3
             judge(R, "power", f"({a.tolist()}, {e.tolist()})", lambda: numpoly.power(p, e), lambda: numpy.power(a, e), tags + ["integer_exponent"])
             if kind == "f":
                 ef = numpy.abs(b) % 3
